@@ -176,7 +176,12 @@ def step (s : St) (toks : List String) : St × String :=
   | "multi" :: l :: o1 :: o2 :: sched :: k :: rest =>
     match parseLogger l o1 o2, k.toNat? with
     | some lg, some k =>
-      match (sched.splitOn ",").mapM (parseEv lg), parseHeldMsgs k rest with
+      -- "conc" = all messages logged at once, then all written: any linearisation gives the same lines
+      let evs : Option (List Logging.Ev) :=
+        if sched = "conc" then
+          some ((List.range k).map (fun i => Logging.Ev.log i lg false) ++ (List.range k).map Logging.Ev.write)
+        else (sched.splitOn ",").mapM (parseEv lg)
+      match evs, parseHeldMsgs k rest with
       | some evs, some tms => (s, multi lg evs tms)
       | _, _ => (s, "bad-op")
     | _, _ => (s, "bad-op")
